@@ -266,13 +266,15 @@ func (w *World) Insert(t *Tree, ki, vn int) error {
 	if w.Cfg.Val == VNil {
 		vn = 0 // every value is nil: one value number
 	}
+	if old, ok := t.Model[ki]; ok && old != vn && w.Cfg.SameVal(old, vn) {
+		// -0 over +0 or the reverse: the library calls that a no-op today (reflect.DeepEqual) although the two encode differently;
+		// which of the two the tree holds afterwards is not something any statement pins down, so the harness never asks: it
+		// re-inserts the value the key already has
+		vn = old
+	}
 	err := Safely("Insert", func() error { return t.M.Insert(Ctx, w.Pool[ki], w.Cfg.MakeVal(vn)) })
 	if err != nil {
 		return fmt.Errorf("Insert(%v,%v) failed: %w", w.Pool[ki], w.Cfg.MakeVal(vn), err)
-	}
-	if old, ok := t.Model[ki]; ok && old != vn && w.Cfg.SameVal(old, vn) {
-		// the same value as far as Insert is concerned (e.g. -0 over +0): a no-op, the tree keeps what it holds
-		vn = old
 	}
 	if old, ok := t.Model[ki]; !ok || old != vn {
 		t.touch(ki)
